@@ -1,6 +1,7 @@
 #!/bin/sh
 # usage: try_patch.sh <patch.diff|-R:commit> <PROP> [tier]   -- runs a check against a scratch copy of /repo/src with the patch applied
 set -e
+HERE=$(cd "$(dirname "$0")" && pwd)
 P="$1"; case "$P" in -R:*) ;; /*) ;; *) P="$(pwd)/$P" ;; esac; PROP="$2"; TIER="${3:-quick}"
 D=$(mktemp -d /tmp/mutXXXXXX)
 case "$P" in
@@ -10,6 +11,6 @@ case "$P" in
         WT=1 ;;
   *) cp -r /repo/src "$D/src"; (cd "$D" && patch -p1 -s < "$P") ;;
 esac
-cd /verif
+cd "$HERE"
 VERIF_EVIDENCE_DIR="$D/evidence" VERIF_REPLAY_DIR="$D/replays" EKW_REPO_SRC="$D/src" ./check "$PROP" --tier "$TIER" 2>&1 | grep -E "VIOLATION|DETAIL|UNDECIDED|KNOWN|CRASH|Error|^\[" | cut -c1-260 | head -${LINES_MAX:-12}
 if [ -n "$WT" ]; then git -C /repo worktree remove --force "$D"; else rm -rf "$D"; fi
